@@ -587,6 +587,14 @@ func (c19) Exec(c string) (string, []Fail) {
 			if sparse {
 				stat("nk:sparse")
 			}
+			switch {
+			case 2*keff == w:
+				stat("nk:2k=W")
+			case 2*keff == w-2:
+				stat("nk:2k=W-2")
+			case 2*keff > w:
+				stat("nk:2k>W")
+			}
 			if 2*keff > w || keff < 1 {
 				caseTrivial = true // outside the domain of the word type
 			}
@@ -738,6 +746,12 @@ func c19Graph(k int, reads [][]byte, counts []int, fail func(sig, format string,
 	}
 	if ambig {
 		stat("g:ambiguity")
+	}
+	if k >= 31 {
+		stat(fmt.Sprintf("g:k=%d", k))
+	}
+	if len(reads) >= 20 {
+		stat("g:reads>=20")
 	}
 	if !inTable {
 		stat("g:non-iupac")
@@ -1346,11 +1360,13 @@ func c19GenMore(rng *rand.Rand, n int, emit func(string)) {
 			k, reads, counts = c19GenGraph(rng)
 		}
 		mc := c19Covs[rng.Intn(len(c19Covs))]
-		switch rng.Intn(4) {
+		switch rng.Intn(5) {
 		case 0:
 			mc = rng.Float64()
 		case 1:
 			mc = float64(1+rng.Intn(31)) / 32
+		case 2, 3:
+			mc = 0.5 + rng.Float64()/2 // where the ends of a partially covered template are cut
 		}
 		if mc <= 0 {
 			mc = 0.5
@@ -1520,8 +1536,25 @@ func c19Cov(k int, mc float64, reads [][]byte, counts []int, fail func(sig, form
 func c19KM[T obifp.FPUint[T]](k uint, sparse bool, maxocc, mincount int, self bool, seqs [][]byte) (ord []int, length int, m, f map[int]int) {
 	all := make(obiseq.BioSequenceSlice, len(seqs))
 	id := map[*obiseq.BioSequence]int{}
-	for i, s := range seqs {
-		all[i] = obiseq.NewBioSequence(fmt.Sprintf("s%d", i), append([]byte{}, s...), "")
+	// the sequences are allocated in an order derived from the case, so that the address of the query (the last one)
+	// is not always the largest
+	perm := make([]int, len(seqs))
+	for i := range perm {
+		perm[i] = i
+	}
+	hsh := uint32(2166136261)
+	for _, s := range seqs {
+		for _, b := range s {
+			hsh = (hsh ^ uint32(b)) * 16777619
+		}
+	}
+	for i := len(perm) - 1; i > 0; i-- {
+		hsh = hsh*1664525 + 1013904223
+		j := int(hsh>>8) % (i + 1)
+		perm[i], perm[j] = perm[j], perm[i]
+	}
+	for _, i := range perm {
+		all[i] = obiseq.NewBioSequence(fmt.Sprintf("s%d", i), append([]byte{}, seqs[i]...), "")
 		id[all[i]] = i
 	}
 	refs := all
